@@ -247,6 +247,13 @@ def run(ctx):
                 m = gen_moments(rng)[1]
                 m[rng.randrange(4)] = float("nan")
                 entries.append(("nan", m))
+            elif e > 0 and entries[-1][0] not in ("hard", "nan") and rng.random() < 0.15:
+                # a near twin of the previous member of the batch (a slowly turning swell: the same moments to two
+                # decimals, different in the third): each member still gets its own distribution
+                cell = [round(v, 2) for v in entries[-1][1]]
+                sg = [rng.choice([-1.0, 1.0]) for _ in range(4)]
+                entries[-1] = (entries[-1][0], [c_ + 0.004 * s_ for c_, s_ in zip(cell, sg)])
+                entries.append(("near-twin", [c_ - 0.004 * s_ for c_, s_ in zip(cell, sg)]))
             else:
                 entries.append(gen_moments(rng))
         cols = [[m[k] for _, m in entries] for k in range(4)]
